@@ -351,7 +351,7 @@ func kRunPtrace(ctx context.Context, o *kOpts) (runner.Result, *kOut) {
 	if lim.TimeLimit == 0 {
 		lim = bigLimit
 	}
-	r := &ptrace.Runner{
+	r := &ptrace.Runner{ShowDetails: os.Getenv("VERIF_DEBUG_PTRACE") != "",
 		Args: o.args(), Env: []string{"PATH=/bin"}, WorkDir: o.workdir,
 		Files: o.files(w), RLimits: o.rlimits, Limit: lim, Seccomp: o.filter, Handler: o.handler, SyncFunc: o.syncFunc,
 		ExecFile: o.execFile,
@@ -368,7 +368,7 @@ func kRunPtraceFiles(ctx context.Context, o *kOpts, files []uintptr) (runner.Res
 	if lim.TimeLimit == 0 {
 		lim = bigLimit
 	}
-	r := &ptrace.Runner{
+	r := &ptrace.Runner{ShowDetails: os.Getenv("VERIF_DEBUG_PTRACE") != "",
 		Args: o.args(), Env: []string{"PATH=/bin"}, WorkDir: o.workdir,
 		Files: files, RLimits: o.rlimits, Limit: lim, Seccomp: o.filter, Handler: o.handler, SyncFunc: o.syncFunc,
 	}
